@@ -44,3 +44,85 @@ def frame_check(repo, tier, seed, entry_names=('encode', 'decode', 'decode_with_
 
 def frame_check_decode(repo, tier, seed):
     return frame_check(repo, tier, seed, name='pyvc-own(decode paths)', only_decode=True)
+
+
+# ------------------------------------------------------------------------------------------------------------
+def cow_check(repo, tier, seed):
+    """copy-before-write frame obligations at compile time (DESIGN C19 (3), also C03/C11/C13): in the functions
+    that specialise a compiled type for one use site (Compiler.compile_member, Compiler.compile_type,
+    set_compiled_restricted_to) every attribute store and every set_*() call must target an object made by
+    self.copy(...) or a constructor in this activation -- never an object that may come from the compiled-type
+    cache (result of self.compile_*/get_compiled_type, parameters)."""
+    import ast
+    from .own import FrameChecker, FuncAnalysis, SHARED, FRESH, IMMUT, OWNED
+
+    class Cow(FuncAnalysis):
+        def per_call_self(self):
+            return False
+
+        def expr_kind(self, e):
+            if isinstance(e, ast.Call):
+                f = e.func
+                if isinstance(f, ast.Attribute) and isinstance(f.value, ast.Name) and f.value.id == 'self':
+                    if f.attr in ('copy', 'set_compiled_restricted_to'):
+                        return FRESH
+                    return SHARED          # compile_type / compile_user_type / get_compiled_type / ...: maybe cached
+                if isinstance(f, ast.Name):
+                    if f.id[:1].isupper():
+                        return FRESH       # constructor
+                    if f.id in ('copy', 'deepcopy'):
+                        return FRESH
+                    return SHARED
+                return SHARED
+            return FuncAnalysis.expr_kind(self, e)
+
+        def check_call(self, n):
+            f = n.func
+            if isinstance(f, ast.Attribute) and f.attr.startswith('set_') and not (
+                    isinstance(f.value, ast.Name) and f.value.id == 'self'):
+                self.site(n, 'call of setter .%s()' % f.attr, f.value)
+
+        def store_target(self, stmt, t):
+            if isinstance(t, ast.Attribute) and not (isinstance(t.value, ast.Name) and t.value.id == 'self'):
+                self.site(stmt, 'attribute store .%s' % t.attr, t.value)
+            elif isinstance(t, (ast.Tuple, ast.List)):
+                for e in t.elts:
+                    self.store_target(stmt, e)
+
+    mods = {'asn1tools/codecs/%s.py' % c for c in CODEC_MODULES + ['compiler']}
+    ck = FrameChecker(repo, mods)
+    names = ('compile_member', 'compile_type', 'set_compiled_restricted_to')
+    obligations = discharged = 0
+    violations, funcs = [], []
+    for m in ck.prog.modules.values():
+        if m.relpath not in mods:
+            continue
+        for c in m.classes.values():
+            if c.name != 'Compiler':
+                continue
+            for n in names:
+                f = c.methods.get(n)
+                if f is None:
+                    continue
+                fa = Cow(ck, f).classify()
+                fa.kinds['self'] = OWNED
+                fa.check()
+                k = len(fa.sites)
+                ok = sum(1 for s in fa.sites if s['ok'])
+                obligations += k
+                discharged += ok
+                funcs.append({'function': f.ident, 'source_sha256': f.sha, 'paths': 1, 'obligations': k, 'discharged': ok,
+                              'outcomes': {}, 'seconds': 0.0, 'inlined_callees': []})
+                for s in fa.sites:
+                    if not s['ok']:
+                        violations.append({'obligation': '%s/copy-before-write@%d' % (f.ident, s['line']),
+                                           'function': f.ident, 'verdict': 'frame violation',
+                                           'solver_output': '%s: %s on `%s`, which may be an object of the compiled-type cache '
+                                                            '(no self.copy() on this path)' % (f.ident, s['what'], s['target']),
+                                           'line': s['line'], 'inputs': None})
+    undecided = []
+    if obligations < 5:
+        undecided.append({'function': 'pyvc-own(cow)', 'kind': 'vacuous', 'reason': 'fewer than 5 write sites found'})
+    return {'name': 'pyvc-own(copy-before-write)', 'obligations': obligations, 'discharged': discharged,
+            'violations': violations, 'functions': funcs, 'undecided': undecided,
+            'coverage': {'functions': len(funcs), 'write_sites': obligations}}
